@@ -195,6 +195,11 @@ theorem session_gone_kills_connection (s : Scn) (h : sessionGone s (run s).posts
     simp at h
     simpa using this h
 
+/-- Close does not send the redundant DELETE after the server has said that the session is gone. -/
+theorem no_delete_after_session_gone (s : Scn) (h : sessionGone s (run s).posts = true) :
+    deleteAtClose (run s) = false := by
+  simp [deleteAtClose, (session_gone_kills_connection s h).2]
+
 theorem gone_model (s : Scn) : PGone s (obsOf (run s)) := by
   intro h hx
   have := session_gone_kills_connection s h
